@@ -3,6 +3,7 @@ package main
 // Replay files and counterexample replay against the real code.
 
 import (
+	"strings"
 	"crypto/sha256"
 	"encoding/hex"
 	"encoding/json"
@@ -35,9 +36,13 @@ func (e *Engine) writeReplay(prop string, o *Obl, header, dir string) (string, b
 		rf.Inputs = o.fe.inputs
 	}
 	confirmed := false
-	if o.Status == "sat" && o.fe != nil && o.fe.fn != nil {
-		rf.Model = truncate(e.getModel(o, header, dir), 20000)
-		confirmed = e.replayR1(o, rf)
+	if o.fe != nil && o.fe.fn != nil {
+		// model finding on the obligation without its quantified assumptions: a candidate input, to be confirmed by replay
+		rf.Model = truncate(e.getModel(o, header, dir), 60000)
+		if strings.HasPrefix(strings.TrimSpace(rf.Model), "sat") {
+			confirmed = e.replayR1(o, rf)
+		}
+		rf.Model = truncate(rf.Model, 6000)
 	}
 	rf.Confirmed = confirmed
 	if !confirmed {
